@@ -56,7 +56,7 @@ package k8s
 //@ func GetToBeRemovedTime(node) (res, err)
 //@   requires node != nil
 //@   ensures !hasEsc(node) ==> res == nil && err == nil
-//@   ensures [C01] hasEsc(node) ==> (exists i :: keyAt(node, ToBeRemovedByAutoscalerKey, i) && (taintTimeOK(node.Spec.Taints[i].Value) ==> err == nil && res != nil && deref(res) == parseIntVal(node.Spec.Taints[i].Value) * 1000000000) && (!taintTimeOK(node.Spec.Taints[i].Value) ==> err != nil && res == nil))
+//@   ensures hasEsc(node) ==> (exists i :: keyAt(node, ToBeRemovedByAutoscalerKey, i) && (taintTimeOK(node.Spec.Taints[i].Value) ==> err == nil && res != nil && deref(res) == parseIntVal(node.Spec.Taints[i].Value) * 1000000000) && (!taintTimeOK(node.Spec.Taints[i].Value) ==> err != nil && res == nil))
 
 // ---------------------------------------------------------------- the journal
 // Every write escalator issues (Kubernetes or cloud) appends one event.
@@ -145,10 +145,10 @@ package k8s
 //@   requires client != nil
 //@   requires forall i :: 0 <= i && i < len(nodes) ==> nodes[i] != nil
 //@   modifies Jlen, Jkind, Jname, Jok
-//@   ensures [C01,C09,C10,C11,C19] old(Jlen) <= Jlen && Jlen <= old(Jlen) + len(nodes)
-//@   ensures [C01,C09,C10,C11,C19] forall k :: old(Jlen) <= k && k < Jlen ==> Jkind[k] == K_DELETE && Jname[k] == nodes[k - old(Jlen)].Name
-//@   ensures [C01,C09,C10,C11,C19] forall k :: k < old(Jlen) ==> Jkind[k] == old(Jkind)[k] && Jname[k] == old(Jname)[k] && Jok[k] == old(Jok)[k]
-//@   ensures [C19] err == nil ==> Jlen == old(Jlen) + len(nodes)
+//@   ensures old(Jlen) <= Jlen && Jlen <= old(Jlen) + len(nodes)
+//@   ensures forall k :: old(Jlen) <= k && k < Jlen ==> Jkind[k] == K_DELETE && Jname[k] == nodes[k - old(Jlen)].Name
+//@   ensures forall k :: k < old(Jlen) ==> Jkind[k] == old(Jkind)[k] && Jname[k] == old(Jname)[k] && Jok[k] == old(Jok)[k]
+//@   ensures err == nil ==> Jlen == old(Jlen) + len(nodes)
 //@ loop #0
 //@   invariant Jlen == old(Jlen) + #i
 //@   invariant forall k :: old(Jlen) <= k && k < Jlen ==> Jkind[k] == K_DELETE && Jname[k] == nodes[k - old(Jlen)].Name
